@@ -20,12 +20,17 @@ def parseDumps (s : String) : Option (List T) := (splitTerm "|" s).mapM T.undump
 
 def supsOf (t : T) : List Rat := t.splits.map (·.e.sup)
 
-/-- same branches in the same order, same lengths (the supports are what may change) -/
+/-- same branches in the same order: what lets the supports of the two dumps be aligned (lengths,
+    names, ids … are compared by the correspondence, `fidelityDiff`, not by the oracle) -/
 def sameShape (a b : T) : Bool :=
-  a.splits.map (fun s => (s.below, s.tip, s.e.len)) == b.splits.map (fun s => (s.below, s.tip, s.e.len))
+  a.splits.map (fun s => (s.below, s.tip)) == b.splits.map (fun s => (s.below, s.tip))
 
 def outClass (s : String) : String :=
-  if s.startsWith "panic" then "panic" else if s.startsWith "clifail" then "clifail" else s
+  if s.startsWith "panic" then "panic" else if s.startsWith "clifail" then "clifail"
+  else if s.startsWith "err" then "err" else s
+
+/-- the error is the one about the taxa (`CompareTipIndexes`: other names / another number of tips) -/
+def taxaError (s : String) : Bool := s == "err:taxa"
 
 def modelClass : Out (List Rat) → String
   | .ok _ => "ok" | .err => "err" | .panic => "panic" | .nan => "nan"
@@ -84,6 +89,13 @@ def fidelity (name : String) (r : T) (after : Option T) : List String :=
     [name ++ (if a.nodeNames == (blankNames r).nodeNames then "-names-as-model" else "-names-DIFFER"),
      name ++ (if annotated r (supsOf a) == a then "-tree-as-model" else "-tree-DIFFERS")]
 
+/-- the annotated reference differs from the model's (`names_irrelevant`, `annotated_tree` are about
+    `blankNames` / `annotated`): a broken correspondence -/
+def fidelityDiff (r : T) (after : Option T) : Bool :=
+  match after with
+  | none => false
+  | some a => annotated r (supsOf a) != a
+
 /-- some node that both functions blank carries a name -/
 def innerNamed (r : T) : Bool := r.nodeNames != (blankNames r).nodeNames
 
@@ -96,55 +108,67 @@ def supCase (mode th rd bds fo fa to ta : String) : Verdict :=
     let fa? := if fa == "" then none else T.undump fa
     let ta? := if ta == "" then none else T.undump ta
     if (fa != "" && fa?.isNone) || (ta != "" && ta?.isNone) then bad "C10.sup after dumps" else
-    let uniq := reinitOk r && bs.all reinitOk
-    let wf := wfTree r && bs.all wfTree
+    let uniq := specUniq r && bs.all specUniq
+    let wf := specWf r && bs.all specWf
     let mismatch := bs.any fun b => !sameTaxa r b
     let ids := parserIds r
     let hyp := inputsOK r bs
+    let thN : Int := th.toInt?.getD 1
+    let nt := r.tipNames.length
     let allSups := (fa?.map supsOf).getD [] ++ (ta?.map supsOf).getD []
-    let tags := [mode, "threads=" ++ th] ++ tagIf (th != "1" && mismatch) "rejection-with-threads" ++ treeTags r bs ++ tagIf (allSups.any between) "nontrivial" ++
+    let tags := [mode, "threads=" ++ th] ++ tagIf (th != "1" && mismatch) "rejection-with-threads" ++ tagIf (thN ≤ 0) "threads<=0" ++ treeTags r bs ++ tagIf (allSups.any between) "nontrivial" ++
       tagIf uniq "uniq" ++ tagIf wf "wf" ++ tagIf mismatch "mismatch" ++ tagIf hyp "hyp-inputsOK" ++
       tagIf (hypOK r bs) "hyp-hypOK" ++ tagIf (hypOK r bs && idsInRange r) "hyp-hypOK+idsInRange" ++
       tagIf (treeOK r && bs.all treeOK && idsInRange r && mismatch) "hyp-different_taxa" ++
       tagIf (!ids) "ids-not-parser" ++ tagIf (!idsInRange r) "ids-out-of-range" ++
       tagIf (uniq && !wf) "single-child-node" ++ tagIf (outClass to == "panic") "panic-outcome" ++ tagIf bs.isEmpty "empty" ++
-      tagIf (ntips r < 4) "lt4tips" ++ fidelity "fbp" r fa? ++ fidelity "tbe" r ta? ++
+      tagIf (nt < 4) "lt4tips" ++ fidelity "fbp" r fa? ++ fidelity "tbe" r ta? ++
       tagIf (r.splits.any fun s => !s.tip && s.e.sup != NIL) "ref-has-supports" ++
+      tagIf (r.splits.any fun s => !s.tip && depth r.tipNames s.below ≤ 1 && s.e.sup != NIL) "ref-root-twin-has-support" ++
       tagIf (innerNamed r) "ref-inner-names" ++
       tagIf (r.kids.length == 1 || bs.any (·.kids.length == 1)) "root-is-a-tip" ++
       tagIf (r.tipNames.any fun x => x.toList.any fun ch => !(ch.isAlphanum)) "awkward-tip-names" ++
-      tagIf (ntips r > 16) "more-than-16-tips"
-    -- oracle
+      tagIf (nt > 16) "more-than-16-tips"
+    -- oracle: the FBP half and the rejection clause never depend on the branch ids; the TBE half
+    -- has the ids of the reference as a precondition (`sumNbClosestBranches[e.Id()]`)
+    let gate := uniq && wf && !bs.isEmpty
     let orc : Option String :=
-      if !uniq || !wf || bs.isEmpty || !ids then none
+      if !gate then none
       else if mismatch then
-        (if outClass fo != "err" then some "FBP: bootstrap tree on other taxa not rejected"
-         else if outClass to != "err" then some "TBE: bootstrap tree on other taxa not rejected"
+        (if !taxaError fo then some ("FBP: bootstrap tree on other taxa not rejected as such (outcome " ++ fo ++ ")")
+         else if ids && !taxaError to then some ("TBE: bootstrap tree on other taxa not rejected as such (outcome " ++ to ++ ")")
          else none)
       else
-        match checkOne "FBP" fbpOK r bs fo fa?, checkOne "TBE" tbeOK r bs to ta? with
+        match checkOne "FBP" fbpOK r bs fo fa?, (if ids then checkOne "TBE" tbeOK r bs to ta? else none) with
         | some m, _ => some m
         | _, some m => some m
         | none, none =>
-          match fa?, ta? with
-          | some a, some b =>
+          match ids, fa?, ta? with
+          | true, some a, some b =>
             if fbpLeTbeOK r (supsOf a) (supsOf b) then none else some "FBP support above TBE support"
-          | _, _ => none
+          | _, _, _ => none
     match orc with
-    | some m => ⟨.oracle, tags, m⟩
+    | some m => ⟨.oracle, tags ++ tagIf (gate && !ids) "oracle-fbp-half-only", m⟩
     | none =>
-      match tieOne "FBP" (fbp r bs) fo fa? approxRelOrEq, tieOne "TBE" (tbe r bs) to ta? approxAbs with
+      match tieOne "FBP" (fbpCfg thN r bs) fo fa? approxRelOrEq, tieOne "TBE" (tbeCfg thN r bs) to ta? approxAbs with
       | some m, _ => ⟨.tie, tags, m⟩
       | _, some m => ⟨.tie, tags, m⟩
-      | none, none => ⟨.pass, tags, ""⟩
+      | none, none =>
+        if fidelityDiff r fa? then ⟨.tie, tags, "FBP: the annotated reference is not the model's (names blanked, supports written, nothing else touched)"⟩
+        else if fidelityDiff r ta? then ⟨.tie, tags, "TBE: the annotated reference is not the model's (names blanked, supports written, nothing else touched)"⟩
+        else ⟨.pass, tags ++ tagIf (gate && !ids) "oracle-fbp-half-only", ""⟩
   | _, _ => bad "C10.sup dumps"
 
 
 def parseItems (s : String) : List (Item String) :=
-  (splitTerm "|" s).map fun x => if x == "B" then .blank else if x == "J" then .junk else .tree x
+  (splitTerm "|" s).map fun x =>
+    if x == "B" then .blank else if x == "J" then .junk
+    else if x.startsWith "L" then .treeLine ((String.ofList (x.toList.drop 1)).splitOn "^") else .tree x
 
 def isTreeItem : Item String → Bool
   | .tree _ => true
+  | .treePlus _ => true
+  | .treeLine _ => true
   | _ => false
 
 /-- the files given to `gotree compute support`: the model of the readers picks the trees,
@@ -156,7 +180,8 @@ def cliCase (th refItems bootItems fo fa to ta : String) : Verdict :=
     tagIf (ri.head?.map isTreeItem == some false) "ref-file-leading-blank" ++
     tagIf (bi.any fun x => match x with | .blank => true | _ => false) "boot-file-blank-lines" ++
     tagIf (bi.any fun x => match x with | .junk => true | _ => false) "boot-file-unterminated" ++
-    tagIf (!bi.any isTreeItem) "boot-file-no-tree"
+    tagIf (!bi.any isTreeItem) "boot-file-no-tree" ++
+    tagIf (bi.any fun x => match x with | .treeLine _ => true | _ => false) "boot-file-several-trees-on-a-line"
   let expectErr (why : String) : Verdict :=
     if outClass fo == "err" && outClass to == "err" then ⟨.pass, tags0 ++ ["cli-reader-error"], ""⟩
     else ⟨.tie, tags0, "model of the readers: " ++ why ++ "; outcomes " ++ outClass fo ++ "/" ++ outClass to⟩
@@ -230,7 +255,17 @@ def logCase (rd bds cs out raws taxas brs : String) : Verdict :=
         else if !zipAll (fun (x y : Int × Int × Rat × List Rat) => x.1 == y.1 && x.2.1 == y.2.1 && approxLog x.2.2.1 y.2.2.1 &&
               zipAll approxLog x.2.2.2 y.2.2.2) branches m.branches then
           ⟨.tie, tags, "model per-branch table " ++ showRatMatrix (m.branches.map fun x => x.2.2.1 :: x.2.2.2)⟩
-        else ⟨.pass, tags, ""⟩
+        else
+          -- consistency of the implementation's own tables: the taxa moved around a branch add up to
+          -- its average transfer distance (each closest branch is reached by moving `dist` taxa)
+          let rowsOK := branches.all fun x =>
+            if x.2.1 > 1 then
+              match raw.find? (fun y => ((y.1 : Nat) : Int) == x.1) with
+              | some y => decide (absR (x.2.2.2.sum - y.2.1) * 1000000 ≤ ((x.2.2.2.length + 1 : Nat) : Rat))
+              | none => x.2.2.2.all (· == 0)
+            else true
+          if !rowsOK then ⟨.tie, tags, "per-branch table: the moved taxa do not add up to the average transfer distance"⟩
+          else ⟨.pass, "log-rows-sum-to-distance" :: tags, ""⟩
   | _, _, _, _, _, _ => bad "C10.log fields"
 
 def handle (op : String) (f : List String) : Verdict :=
@@ -291,7 +326,7 @@ def handle (op : String) (f : List String) : Verdict :=
                r1.splits.all (fun s => r2.splits.any (fun s' => sameSplit r1.tipNames s.below s'.below)))
           "hyp-reference_presentation"
       if !sane then bad "C10.inv: the two runs are not presentations of the same trees" else
-      if !(reinitOk r1 && b1.all reinitOk) then ⟨.pass, "skip-dupnames" :: tags, ""⟩ else
+      if !(specUniq r1 && b1.all specUniq) then ⟨.pass, "skip-dupnames" :: tags, ""⟩ else
       if !supMapEq (supMap f1) (supMap f2) then ⟨.oracle, tags, "FBP depends on the order / rooting / child order of the trees"⟩
       else if !supMapEq (supMap t1) (supMap t2) then ⟨.oracle, tags, "TBE depends on the order / rooting / child order of the trees"⟩
       else ⟨.pass, tags, ""⟩
